@@ -124,7 +124,32 @@ def run(ctx):
 
     items = ["-\t" + t for _, _, t in docs]
     # ------------------------------------------------------------------ S: e2e oracle
-    outs = ctx.rvh_batch(binp, 'c03-e2e', items, per_item_timeout=10)
+    # stage 1: files, use shapes, every cycle of length <= 2 and the single-kind 3-cycles, few documents per worker
+    # so that an overflow or a hang is found quickly; stage 2 (everything else) only if stage 1 is clean.
+    def early(i):
+        label, d, text = docs[i]
+        if d is None or isinstance(d, str) or label.startswith('use-family'):
+            return True
+        if label.startswith('cycle '):
+            kinds = label.split(' ')[1].split('>')
+            return len(kinds) <= 2 or len(set(kinds)) == 1
+        return False
+    s1 = [i for i in range(len(docs)) if early(i)]
+    s2 = [i for i in range(len(docs)) if not early(i)]
+    outs = [None] * len(docs)
+    o1 = ctx.rvh_batch(binp, 'c03-e2e', [items[i] for i in s1], per_item_timeout=4, chunk=6)
+    for i, o in zip(s1, o1):
+        outs[i] = o
+    stage1_crash = any(o is None or '"crash"' in o or '"panic"' in o for o in o1)
+    if stage1_crash:
+        ctx.log("stage 1 of the e2e oracle found a crash / hang: stage 2 (%d documents) is skipped" % len(s2))
+        docs = [docs[i] for i in s1]
+        items = [items[i] for i in s1]
+        outs = o1
+    else:
+        o2 = ctx.rvh_batch(binp, 'c03-e2e', [items[i] for i in s2], per_item_timeout=4, chunk=40)
+        for i, o in zip(s2, o2):
+            outs[i] = o
     e2e_bad = 0
     known_hits = 0
     verdicts = []
@@ -166,12 +191,12 @@ def run(ctx):
     ctx.cov['e2e_cases'] = len(docs)
     ctx.cov['e2e_kinds'] = hist
     ctx.cov['known_class_hits'] = known_hits
-    ctx.add_sample(dict(op='c03-e2e', label=docs[n_files][0], doc=docs[n_files][2]))
-    ctx.add_sample(dict(op='c03-e2e', label=docs[-40][0], doc=docs[-40][2]))
+    ctx.add_sample(dict(op='c03-e2e', label=docs[min(n_files, len(docs) - 1)][0], doc=docs[min(n_files, len(docs) - 1)][2]))
+    ctx.add_sample(dict(op='c03-e2e', label=docs[-4][0], doc=docs[-4][2]))
 
     # ------------------------------------------------------------------ K: prepass + names correspondence, model verdicts
     sel = [i for i, (_, d, _) in enumerate(docs) if d is not None and not isinstance(d, str)]
-    touts = ctx.rvh_batch(binp, 'c03-svgtree', [items[i] for i in sel], per_item_timeout=10)
+    touts = ctx.rvh_batch(binp, 'c03-svgtree', [items[i] for i in sel], per_item_timeout=4, chunk=40)
     pre_items, nm_items, vd_items, usable = [], [], [], []
     for i, o in zip(sel, touts):
         try:
@@ -189,7 +214,7 @@ def run(ctx):
     model_ok = True
     if usable:
         chunks = [list(range(k, min(len(usable), k + 1500))) for k in range(0, len(usable), 1500)]
-        bad_pre, bad_nm, mverd = [], [], {}
+        bad_pre, bad_nm, bad_impl, mverd = [], [], [], {}
         def eval_chunk(args):
             ci, ch = args
             body = ("From Coq Require Import ZArith NArith List.\nImport ListNotations.\n"
@@ -197,6 +222,7 @@ def run(ctx):
                     "Definition nms : list (xnode * option (list N)) := [\n%s\n].\n"
                     "Eval vm_compute in (bad_idx chk_prepass pre).\n"
                     "Eval vm_compute in (bad_idx chk_names nms).\n"
+                    "Eval vm_compute in (bad_idx chk_impl_prepass pre).\n"
                     "Eval vm_compute in (map (fun p => let v := model_verdict %d%%N (fst p) in (fst v * 2 + (if snd v then 1 else 0))%%N) pre).\n"
                     % (";\n".join(pre_items[j] for j in ch), ";\n".join(nm_items[j] for j in ch), G.WITNESS_N))
             return ctx.coq_eval('k_c03_%d' % ci, body, IMPORTS, timeout=1200)
@@ -205,13 +231,15 @@ def run(ctx):
             evals = list(ex.map(eval_chunk, list(enumerate(chunks))))
         for (ci, ch), (rc, out) in zip(enumerate(chunks), evals):
             lists = re.findall(r"=\s*\[(.*?)\]\s*:\s*list", out, re.S) if rc == 0 else []
-            if len(lists) != 3:
+            if len(lists) != 4:
                 model_ok = False
                 ctx.log("model evaluation failed:\n" + out[-1500:])
                 break
             pl = [int(re.sub(r"%\w+", "", x).strip()) for x in lists[0].split(';') if x.strip()]
             nl = [int(re.sub(r"%\w+", "", x).strip()) for x in lists[1].split(';') if x.strip()]
-            vl = [int(re.sub(r"%\w+", "", x).strip()) for x in lists[2].split(';') if x.strip()]
+            il = [int(re.sub(r"%\w+", "", x).strip()) for x in lists[2].split(';') if x.strip()]
+            vl = [int(re.sub(r"%\w+", "", x).strip()) for x in lists[3].split(';') if x.strip()]
+            bad_impl += [usable[ch[b]] for b in il]
             bad_pre += [usable[ch[b]] for b in pl]
             bad_nm += [usable[ch[b]] for b in nl]
             for j, v in zip(ch, vl):
@@ -220,6 +248,10 @@ def run(ctx):
             ctx.cov['correspondence_cases'] = 2 * len(usable)
             for i in bad_pre[:3]:
                 ctx.violation("svgtree pre-pass: model and implementation disagree on the neutralised references (%s)" % docs[i][0],
+                              dict(op='c03-svgtree', label=docs[i][0], doc=docs[i][2],
+                                   impl=json.loads(touts[sel.index(i)]), cmd="printf '0\\t-\\t<doc>\\n' | rvh c03-svgtree"))
+            for i in bad_impl[:3]:
+                ctx.violation("svgtree pre-pass leaves a reference cycle of length <= 2 in the tree it returns (%s)" % docs[i][0],
                               dict(op='c03-svgtree', label=docs[i][0], doc=docs[i][2],
                                    impl=json.loads(touts[sel.index(i)]), cmd="printf '0\\t-\\t<doc>\\n' | rvh c03-svgtree"))
             for i in bad_nm[:3]:
